@@ -459,7 +459,26 @@ class LoopChecker:
 
 # ------------------------------------------------------------- callee summaries
 def consumed_at_most_len(world: World, f: Func) -> bool:
-    """f(buf) returns (value, n) with n <= len(buf): n counts index steps each preceded by a bounds check."""
+    """f(buf) returns (value, n) with n <= len(buf): n counts index steps each preceded by a bounds check, or is the
+    1-based position of the element an `enumerate(buf, start=1)` loop stopped at."""
+    p0 = f.params[0] if f.params else None
+    rets = [n for n in body_nodes(f.node) if isinstance(n, ast.Return)]
+    if p0 is not None and rets and all(isinstance(r.value, ast.Tuple) and len(r.value.elts) == 2 and isinstance(r.value.elts[1], ast.Name) for r in rets):
+        ok_all = True
+        for r in rets:
+            cnt = t.cast(ast.Name, t.cast(ast.Tuple, r.value).elts[1]).id
+            loops = [x for x in body_nodes(f.node) if isinstance(x, ast.For) and any(y is r for y in ast.walk(x))]
+            ok = False
+            for lp in loops:
+                it = lp.iter
+                if isinstance(it, ast.Call) and unparse(it.func) == "enumerate" and it.args and unparse(it.args[0]) == p0 and isinstance(lp.target, ast.Tuple) and len(lp.target.elts) == 2 and unparse(lp.target.elts[0]) == cnt:
+                    start = it.args[1] if len(it.args) > 1 else next((k.value for k in it.keywords if k.arg == "start"), ast.Constant(value=0))
+                    rebinds = any(isinstance(x, ast.Name) and x.id in (cnt, p0) and isinstance(x.ctx, ast.Store) for b_ in lp.body for x in ast.walk(b_))
+                    if isinstance(start, ast.Constant) and start.value in (0, 1) and not rebinds:
+                        ok = True
+            ok_all = ok_all and ok
+        if ok_all:
+            return True
     for n in body_nodes(f.node):
         if isinstance(n, ast.Return) and isinstance(n.value, ast.Tuple) and len(n.value.elts) == 2 and isinstance(n.value.elts[1], ast.Name):
             idx = n.value.elts[1].id
